@@ -108,7 +108,11 @@ type ClassDef struct {
 	Name    string
 	Props   []Prop
 	Methods []FuncDef
+	Getters []FuncDef // 何为X？ (syntax only)
 }
+
+// LetBlock - block declaration: 令： followed by one pair per line
+type LetBlock struct{ Pairs []*Let }
 type CtorDef struct {
 	Class   string
 	Params  []string
